@@ -66,6 +66,10 @@ CHECKS = {
          "Decides the inductive in-bounds invariant of position (sentinel re-established by reset and outside the rune range; advances only after a guarded test; otherwise snapshots; buffer indexed only at position/the literal cursor; offsets index runes). -switch configurations are judged by C02.",
          "DESIGN.md §4 C13",
          "Children keep the invariant (induction); termination/stack depth not decided."),
+ "C02": ("abstract interpretation of optimizeAlternates (FIRST sets as mathematical sets) and of the emitter on model grammars; E2 typestate analysis of the code emitted for the rewritten tree compared with the PEG oracle evaluated on the unrewritten twin; FIRST/must-consume pairs compared with the PEG definition; the same for -inline against the oracle with single-use rules replaced by their bodies",
+         "Decides the soundness conditions of both optimisations: a switched choice produces exactly the verdicts, consumed prefixes, tokens and successful attempts of the ordered choice for every hop through which the skip-first-test flag travels (terminals and opaque children with declared FIRST sets), choices with nullable alternatives stay ordered, FIRST sets are never too small, labels agree between the dry and the real pass, inlined uses equal calls and never reach a nil entry. Necessary conditions which, with C01, are sufficient for well-formed grammars; no two parsers are run.",
+         "DESIGN.md §4 C02",
+         "Assumptions of C01; opaque children with a declared FIRST set fail outside it; set arithmetic is modelled mathematically (setmodel.go), not taken from package set."),
 }
 
 NOT_APPLICABLE = {
